@@ -18,6 +18,8 @@ ROLES0 = {'R': '31', 'B': '34', 'G': '32', 'W': '1', 'F': '2', 'N': '22', 'U': '
           # less common effect groups: overline, encircled, italic, strike, spacing, font, blink, underline colour
           # extended colours with zero parameters (a '0' inside a colour is not a reset)
           'L': '38;5;0', 'Q': '48;2;0;0;0',
+          # a verbatim selector that lacks its last parameter: in a rendering it runs into the setting that follows it
+          'P': '[38;5',
           'O': '53', 'E': '52', 'I': '3', 'H': '9', 'J': '26', 'S': '11', 'K': '5', 'C': '58;5;9', 'A': '55', 'V': '54',
           'b': 'name:bold', 'r': 'name:fg_red'}
 FG1 = ['31', '34', '32', '33', '35', '36', '91', '94', '92']
